@@ -393,6 +393,15 @@ func (t *tracer) CaptureState(pc uint64, op vm.OpCode, gas, cost uint64, memory 
 	if depth == 1 {
 		t.steps = append(t.steps, [2]uint64{gas, cost})
 	}
+	// the declarative gas specification (memory expansion, copy/hash/log words, all-but-one-64th) on this very step
+	if want, ok := refGas(byte(op), func(i int) *big.Int {
+		if i < len(data) {
+			return data[len(data)-1-i].ToBig()
+		}
+		return new(big.Int)
+	}, uint64(memory.Len()), gas); ok && (!want.IsUint64() || want.Uint64() != cost) {
+		t.fails = append(t.fails, fmt.Sprintf("gas: %s with %d active memory bytes and %d gas was charged %d, the gas specification says %s", op.String(), memory.Len(), gas, cost, want.String()))
+	}
 	if (op == vm.JUMP && len(data) >= 1) || (op == vm.JUMPI && len(data) >= 2 && !data[len(data)-2].IsZero()) {
 		d := data[len(data)-1].ToBig()
 		t.pendJ[depth] = &pendJump{dest: d, valid: refValidJump(contract.Code, d)}
@@ -575,7 +584,7 @@ func runImpl(c *Case, gas uint64, collectSteps bool) (o Obs) {
 		}
 	}
 	if o.Gas > gas {
-		o.PropFail = append(o.PropFail, fmt.Sprintf("gas: %d left of %d provided", o.Gas, gas))
+		o.PropFail = append(o.PropFail, fmt.Sprintf("gasleft: %d left of %d provided", o.Gas, gas))
 	}
 	if collectSteps {
 		o.Steps = tr.steps
